@@ -255,7 +255,32 @@ func NormalizeFrequencies(freqs []int, alphabet []int, totalFreq, scale int) (in
 		}
 	}
 
-	freqs[idxMax] = max(freqs[idxMax]-delta, 1)
+	if delta > 0 {
+		if inc > 0 {
+			// Remaining deficit: give it to the most frequent symbol
+			freqs[idxMax] += delta
+		} else {
+			// Remaining excess: take it from the frequencies greater than 1, biggest first
+			for delta > 0 {
+				idx := -1
+
+				for _, i := range alphabet[0:alphabetSize] {
+					if freqs[i] > 1 && (idx < 0 || freqs[i] > freqs[idx]) {
+						idx = i
+					}
+				}
+
+				if idx < 0 {
+					break
+				}
+
+				d := min(delta, freqs[idx]-1)
+				freqs[idx] -= d
+				delta -= d
+			}
+		}
+	}
+
 	return alphabetSize, nil
 }
 
